@@ -534,6 +534,49 @@ Definition aln_get_translation_old (aa : str) (rows : list str) (incomplete_ok i
 
 End StopHandling.
 
+(* ------------------------------------------------------------------ app.translate: best_frame, select_translatable *)
+
+(** [tr[:-1] if tr.endswith("*") else tr] *)
+Definition strip_terminal_stop (p : str) : str :=
+  match rev p with
+  | x :: r => if x =? ch_star then rev r else p
+  | [] => p
+  end.
+
+Fixpoint first_open (l : list str) (i : Z) : option Z :=
+  match l with
+  | [] => None
+  | p :: r => if memZ ch_star p then first_open r (i + 1) else Some i
+  end.
+
+(** [best_frame(seq, gc, allow_rc, require_stop=False)]: the old object's six (or three) frames,
+    a terminal "*" dropped from each; sorting (number of stops, index) puts first the first frame
+    without a stop; if there is none the smallest count is >= 1 with the stop inside: ValueError.
+    Frames are 1, 2, 3 and -1, -2, -3 (frames of the reverse complement). *)
+Definition best_frame (aa : str) (s : str) (allow_rc : bool) : res Z :=
+  bind (sixframes_old aa DNA s) (fun trs =>
+    let trs := if allow_rc then trs else firstn 3 trs in
+    match first_open (map strip_terminal_stop trs) 0 with
+    | Some i => Ok (if allow_rc && (3 <=? i) then 2 - i else i + 1)
+    | None => Err E_Value
+    end).
+
+(** one sequence in [select_translatable(allow_rc=, trim_terminal_stop=).main] (frame chosen by
+    best_frame): degap; a ValueError drops the sequence; a negative frame means reverse complement
+    FIRST, then the offset; whole codons only; optional trimming of a terminal stop codon *)
+Definition select_translatable_one (fe : bool) (aa : str) (s : str) (allow_rc trim : bool) : option str :=
+  let d := degap s in
+  match best_frame aa d allow_rc with
+  | Err _ => None
+  | Ok f =>
+      let t := if f <? 0 then rc_pure dna_comp_old d else d in
+      let off := Z.abs f - 1 in
+      let num := (zlen t - off) / 3 in
+      let w := firstn (Z.to_nat (3 * num)) (skipn (Z.to_nat off) t) in
+      if trim then match trim_stop_codon fe Old aa w false with Ok w' => Some w' | Err _ => None end
+      else Some w
+  end.
+
 (* ------------------------------------------------------------------ IUPAC ambiguity *)
 
 Definition alpha_of (v : impl) (m : moltype) : list Z :=
